@@ -345,3 +345,155 @@ Proof.
     apply payloads_of_mui in Hin. exists x0. rewrite H0. f_equal.
     unfold ev_of_payload in Hpl. destruct (p_active pl); [|discriminate]. injection Hpl as Hk _. rewrite <- Hk in Hin. exact (eq_sym Hin).
 Qed.
+
+(* ================================================================== *)
+(* 4. the register as the pipeline uses it                              *)
+(* ================================================================== *)
+
+(* the only questions the pipeline asks: a router under the unit, a peer under a registered router *)
+Definition vq (r : reg) (uid : N) (q : info) : Prop :=
+  (exists k, q = router_query uid k) \/
+  (exists rid k p, q = peer_query rid p /\ infos r !! rid = Some (router_query uid k)).
+
+Record RegOK (r : reg) (uid : N) : Prop := {
+  ro_uid_lt : uid < serial r;
+  ro_uid_none : infos r !! uid = None;
+  ro_below : forall id inf, infos r !! id = Some inf -> id < serial r;
+  ro_shape : forall id inf, infos r !! id = Some inf -> vq r uid inf;
+  ro_inj : forall id1 id2 inf, infos r !! id1 = Some inf -> infos r !! id2 = Some inf -> id1 = id2 }.
+
+Lemma router_match_eq r uid k inf :
+  RegOK r uid -> vq r uid inf -> (router_match (router_query uid k) inf = true <-> inf = router_query uid k).
+Proof.
+  intros HR Hv. rewrite router_match_spec. destruct Hv as [[k' ->]|(rid & k' & p & -> & Hrid)]; cbn.
+  - split; [intros (_ & _ & [= ->]); reflexivity|intros [= ->]; eauto 10].
+  - split; [|discriminate]. intros (_ & [= ->] & _). rewrite (ro_uid_none _ _ HR) in Hrid. discriminate.
+Qed.
+
+Lemma peer_match_eq r uid rid p inf :
+  vq r uid inf -> (peer_match (peer_query rid p) inf = true <-> inf = peer_query rid p).
+Proof.
+  intros Hv. rewrite peer_match_spec. destruct Hv as [[k' ->]|(rid' & k' & p' & -> & Hrid)]; cbn.
+  - split; [|discriminate]. intros ((? & ? & ? & _ & _ & ?) & _). discriminate.
+  - unfold peer_query. split; [intros (_ & [= ->] & [= ->] & [= ->] & [= ->]); reflexivity|].
+    intros [= -> -> -> ->]. eauto 12.
+Qed.
+
+Definition reg_add (r : reg) (q : info) : reg := MkReg ((serial r + 1) mod two32) (<[serial r := q]> (infos r)).
+
+Lemma for_spec m r uid q :
+  RegOK r uid -> (forall inf, vq r uid inf -> (m q inf = true <-> inf = q)) -> vq r uid q ->
+  (exists id, infos r !! id = Some q /\ find_or_register m r q = (id, r)) \/
+  ((forall id, infos r !! id <> Some q) /\ find_or_register m r q = (serial r, reg_add r q)).
+Proof.
+  intros HR Hm Hq. unfold find_or_register. destruct (reg_find_all m r q) as [|id l] eqn:Ef.
+  - right. split.
+    + intros id Hid. assert (id ∈ reg_find_all m r q) as Hin.
+      { apply elem_of_find_all. exists q. split; [exact Hid|]. apply Hm; [exact Hq|reflexivity]. }
+      rewrite Ef in Hin. inversion Hin.
+    + cbn [reg_register]. unfold reg_update_info, reg_add. cbn [infos serial].
+      destruct (infos r !! serial r) as [old|] eqn:E; [|reflexivity].
+      apply (ro_below _ _ HR) in E. lia.
+  - left. exists id. split; [|reflexivity].
+    assert (id ∈ reg_find_all m r q) as Hin by (rewrite Ef; left).
+    apply elem_of_find_all in Hin as (i & Hi & Hmi). apply Hm in Hmi; [congruence|]. eapply ro_shape; eassumption.
+Qed.
+
+(* r' knows everything r knows, under the same ids *)
+Definition reg_le (r r' : reg) : Prop :=
+  serial r <= serial r' /\ forall id, id < serial r -> infos r' !! id = infos r !! id.
+
+Lemma reg_le_refl r : reg_le r r. Proof. split; [lia|reflexivity]. Qed.
+
+Lemma reg_le_some r uid r' id inf : RegOK r uid -> reg_le r r' -> infos r !! id = Some inf -> infos r' !! id = Some inf.
+Proof. intros HR [_ H] Hi. rewrite H; [exact Hi|]. eapply ro_below; eassumption. Qed.
+
+Lemma vq_le r uid r' q : RegOK r uid -> reg_le r r' -> vq r uid q -> vq r' uid q.
+Proof.
+  intros HR Hle [H|(rid & k & p & -> & Hrid)]; [left; exact H|right].
+  exists rid, k, p. split; [reflexivity|]. eapply reg_le_some; eassumption.
+Qed.
+
+Lemma reg_le_add r q : serial r + 1 < two32 -> reg_le r (reg_add r q).
+Proof.
+  intros Hlt. unfold reg_add. split; cbn [serial infos]; [rewrite N.mod_small; lia|].
+  intros id Hid. apply lookup_insert_ne. lia.
+Qed.
+
+Lemma RegOK_add r uid q :
+  RegOK r uid -> vq r uid q -> (forall id, infos r !! id <> Some q) -> serial r + 1 < two32 -> RegOK (reg_add r q) uid.
+Proof.
+  intros HR Hq Hnew Hlt. pose proof (reg_le_add r q Hlt) as Hle. destruct HR as [A B C D E].
+  assert (HR : RegOK r uid) by (split; assumption).
+  unfold reg_add in *. split; cbn [serial infos].
+  - rewrite N.mod_small by lia. lia.
+  - rewrite lookup_insert_ne by lia. exact B.
+  - intros id inf. rewrite N.mod_small by lia. destruct (decide (id = serial r)) as [->|Hne]; [lia|].
+    rewrite lookup_insert_ne by congruence. intros H. apply C in H. lia.
+  - intros id inf. destruct (decide (id = serial r)) as [->|Hne].
+    + rewrite lookup_insert. intros [= <-]. eapply vq_le; eassumption.
+    + rewrite lookup_insert_ne by congruence. intros H. eapply vq_le; [exact HR|exact Hle|]. eapply D, H.
+  - intros id1 id2 inf. destruct (decide (id1 = serial r)) as [->|H1], (decide (id2 = serial r)) as [->|H2];
+      rewrite ?lookup_insert, ?lookup_insert_ne by congruence.
+    + reflexivity.
+    + intros [= <-] H. exfalso. apply (Hnew _ H).
+    + intros H [= <-]. exfalso. apply (Hnew _ H).
+    + apply E.
+Qed.
+
+Lemma RegOK_register r uid : RegOK r uid -> serial r + 1 < two32 -> RegOK (reg_register r).2 uid /\ reg_le r (reg_register r).2.
+Proof.
+  intros [A B C D E] Hlt. cbn [reg_register snd]. split; [split; cbn [serial infos]|].
+  - rewrite N.mod_small by lia. lia.
+  - exact B.
+  - intros id inf H. apply C in H. rewrite N.mod_small by lia. lia.
+  - exact D.
+  - exact E.
+  - split; cbn [serial infos]; [rewrite N.mod_small; lia|reflexivity].
+Qed.
+
+(* find-or-register in one statement: the register stays well-formed, only grows, and the id answers q *)
+Lemma for_ext m r uid q :
+  RegOK r uid -> (forall inf, vq r uid inf -> (m q inf = true <-> inf = q)) -> vq r uid q -> serial r + 1 < two32 ->
+  let res := find_or_register m r q in
+  RegOK res.2 uid /\ reg_le r res.2 /\ serial res.2 <= serial r + 1 /\ infos res.2 !! res.1 = Some q.
+Proof.
+  intros HR Hm Hq Hlt. destruct (for_spec m r uid q HR Hm Hq) as [(id & Hid & ->)|(Hnew & ->)]; cbn [fst snd].
+  - split; [exact HR|]. split; [apply reg_le_refl|]. split; [lia|exact Hid].
+  - split; [apply RegOK_add; assumption|]. split; [apply reg_le_add, Hlt|].
+    unfold reg_add. cbn [serial infos]. rewrite N.mod_small by lia. split; [lia|apply lookup_insert].
+Qed.
+
+(* ================================================================== *)
+(* 5. one BMP message: the session machine next to the ideal session    *)
+(* ================================================================== *)
+
+Definition coarse (ph : phase) : phase := match ph with PUpd => PDump | x => x end.
+
+Definition out_evs (o : outcome) : list ev := match o with OUpdate u => evs_of_update u | _ => [] end.
+
+(* what sstep does to one session and the ideal RIB on a message *)
+Definition istep (k : N) (ph : phase) (up : gset pph) (rb : irib) (m : msg) : phase * gset pph * irib :=
+  match ph, m with
+  | PInit, MInit => (PDump, up, rb)
+  | (PDump | PUpd), MPeerUp p _ => if bool_decide (p ∈ up) then (ph, up, rb) else (ph, {[p]} ∪ up, rb)
+  | (PDump | PUpd), MPeerDown p =>
+      if bool_decide (p ∈ up) then (ph, up ∖ {[p]}, ideal_down rb (fun x => bool_decide (x = (k, p)))) else (ph, up, rb)
+  | (PDump | PUpd), MRoute p (Some u) =>
+      if bool_decide (p ∈ up) then (ph, up, ideal_update rb (k, p) u) else (ph, up, rb)
+  | (PDump | PUpd), MTerm => (PTerm, ∅, ideal_down rb (fun x => bool_decide (x.1 = k /\ x.2 ∈ up)))
+  | _, _ => (ph, up, rb)
+  end.
+
+Lemma sstep_msg sw k m ph up ever :
+  s_sess sw !! k = Some (ph, up, ever) ->
+  let sw' := (sstep sw (WMsg k m)).1 in
+  (exists ever', s_sess sw' !! k = Some ((istep k ph up (s_rib sw) m).1, ever')) /\
+  (forall k', k' <> k -> s_sess sw' !! k' = s_sess sw !! k') /\
+  s_rib sw' = (istep k ph up (s_rib sw) m).2 /\ s_bgp sw' = s_bgp sw /\ s_bgp_conns sw' = s_bgp_conns sw.
+Proof.
+  intros Hs. cbn [sstep]. rewrite Hs. unfold istep.
+  destruct ph, m as [| |p|p e|p|p [u|]]; try destruct (bool_decide _); cbn [fst snd s_sess s_rib s_bgp s_bgp_conns];
+    (split; [rewrite ?lookup_insert; eauto|]);
+    (split; [intros k' Hk'; rewrite ?lookup_insert_ne by congruence; reflexivity|]); auto.
+Qed.
